@@ -13,7 +13,7 @@ CFG = {
     "rule": ("each seed draws interval (1-3 days or 1/6/12 hours) and TTL (1-6 days), then 4-24 operations: write at a time within/older than the TTL window, at now, or in the future (clock skew), "
              "advance the clock (minutes, days, exactly +-1ms onto a segment's expiry edge, just past the next 00:05), forced cleanup, 50 ticks at one instant; finally one more cron time. "
              "Non-trivial = more than one segment existed; distinct = canonical event-log digests"),
-    "expected_probes": ["reach.expired_segment_removed", "reach.expired_but_not_yet_deleted_is_hidden", "reach.clock_lands_on_expiry_edge", "reach.cron_time_passed", "fault.future_timestamp_write", "reach.forced_cleanup_removed_oldest"],
+    "expected_probes": ["fault.restart_with_changed_segment_interval", "fault.restart", "reach.expired_segment_removed", "reach.expired_but_not_yet_deleted_is_hidden", "reach.clock_lands_on_expiry_edge", "reach.cron_time_passed", "fault.future_timestamp_write", "reach.forced_cleanup_removed_oldest"],
     "real_vs_stub": {
         "real": ["banyand/internal/storage: OpenTSDB, segmentController (select/remove/removeOldest), rotation task, retention task + pkg/timestamp scheduler (cron), retention gate"],
         "stub": ["table type (trivial)", "clock (testing/synctest)"],
